@@ -185,6 +185,7 @@ TExitEarly ==
   /\ exitEarly
   /\ IF cpc = "after" THEN CAfter ELSE CExitEarly
   /\ TUNCH
+TSweep == Ev("Sweep") /\ Adv /\ CSweep /\ R.n = Cardinality(listed) /\ TUNCH
 TMainExit == Ev("MainExit") /\ Adv /\ (ret <=> R.ok = 1) /\ ProcExit /\ TUNCH
 
 \* ---------------------------------------------------------------- signal handler
@@ -208,7 +209,7 @@ TNext ==
   \/ TSendStart \/ (\E w \in W : TEnqueue(w)) \/ TSendDone \/ TWStart \/ TSpawn
   \/ TTempCreate \/ TTempRegister \/ (\E w \in W : TCreateRefused(w)) \/ TReaderDrop \/ TWReturn
   \/ TEnterSel \/ TDequeue \/ TDisc \/ TRecv \/ TSelNone \/ TFiAll \/ TFirstPrint
-  \/ TPrint \/ TPrinted \/ TAddNl \/ TRemove \/ TLoopExit \/ TTotals \/ TReturn \/ TExitEarly \/ TMainExit
+  \/ TPrint \/ TPrinted \/ TAddNl \/ TRemove \/ TLoopExit \/ TTotals \/ TReturn \/ TExitEarly \/ TSweep \/ TMainExit
   \/ TSigRaise \/ TFilters \/ TStage1 \/ TPlanAbandoned \/ THStart \/ THLock \/ THCleared \/ THNtfLock \/ THRemoved \/ THFlag
 
 TSpec == TInit /\ [][TNext]_tvars
